@@ -92,6 +92,10 @@ func (k Keeper) prepareCoinToDistributeForNotMainAccount(ctx sdk.Context, source
 }
 
 func (k Keeper) prepareCoinToDistributeForModuleAccount(ctx sdk.Context, source types.Account, subDistributorName string) sdk.DecCoins {
+	if err := k.checkModuleAccounts(ctx, source.Id); err != nil {
+		k.Logger(ctx).Error("prep coins module - source account", "subDistributorName", subDistributorName, "source", source, "error", err.Error())
+		return nil
+	}
 	coinsToSend := k.GetAccountCoinsForModuleAccount(ctx, source.Id)
 	coinsToDistribute := sdk.NewDecCoinsFromCoins(coinsToSend...)
 
